@@ -6,6 +6,7 @@ from .C08 import table
 LEVEL = "proof"
 THEOREMS = ["C04_refines", "C04_wf", "C04_total_probability", "C04_base_rate", "C04_mixture_form", "C04_apex",
             "C04_absolute", "C04_vacuous_antecedent"]
+EXTRA_MODULES = [("SLV.Props.OracleSpec", ("OS_pyhx", "OS_bmin", "OS_apexU", "OS_deduce", "OS_totalProb", "OS_mbr", "OS_allVac", "OS_projQ"))]
 RULE = ("deduce / deduce_with / deduce2 on well-formed antecedents (zero base rates, vacuous, dogmatic, absolute) x conditional "
         "tables (vacuous/dogmatic/mixed, zero entries in the fallback base rate), |X| 2..4, 2-D antecedents 2x2,2x3,3x2,3x3, |Y| 2..3; "
         "dyadic grids; families A/M/D/N, OpinionRef/&Opinion, owned/borrowed tables; f32+f64. non-trivial = value returned")
